@@ -33,14 +33,33 @@ Present(i, r, x) == x \in DOMAIN Ents(i, r)
 LiveAt(i, r, x)  == Present(i, r, x) /\ Ents(i, r)[x].live = "live"
 SeqSet(s)    == {s[k] : k \in 1..Len(s)}
 AttrVals(e, a) == IF a \in DOMAIN e.attrs THEN SeqSet(e.attrs[a]) ELSE {}
-\* attributes every replica derives locally (not replicated); compared only on LIVE entries in the core
+\* attributes every replica derives locally (not replicated)
 Derived      == {"memberof", "directmemberof"}
-CoreAttrs(e) == IF e.live = "live" THEN e.attrs ELSE [a \in (DOMAIN e.attrs) \ Derived |-> e.attrs[a]]
-DerivedAttrs(e) == IF e.live = "live" THEN <<>> ELSE [a \in (DOMAIN e.attrs) \cap Derived |-> e.attrs[a]]
-Core(e)      == [live |-> e.live, src |-> e.src, attrs |-> CoreAttrs(e)]
+ModelIds     == {"e" \o ToString(k) : k \in 0..99}
+Without(f, S) == [a \in (DOMAIN f) \ S |-> f[a]]
+SubFun(f, g) == DOMAIN f \subseteq DOMAIN g /\ \A a \in DOMAIN f : f[a] = g[a]
+\* Core of an entry: liveness class always; all attributes when live; replicated attributes when recycled /
+\* tombstone; for entries in the CONFLICT state only the class (their attributes are judged separately)
+CoreAttrs(e) == IF e.live = "live" THEN e.attrs
+                ELSE IF e.live = "conflict" THEN <<>>
+                ELSE Without(e.attrs, Derived)
+Core(e)      == [live |-> e.live, attrs |-> CoreAttrs(e)]
 EntsCore(i, r) == [x \in DOMAIN Ents(i, r) |-> Core(Ents(i, r)[x])]
-EntsDerived(i, r) == [x \in DOMAIN Ents(i, r) |-> DerivedAttrs(Ents(i, r)[x])]
+RecycledDerived(i, r) == [x \in {y \in DOMAIN Ents(i, r) : Ents(i, r)[y].live \notin {"live", "conflict"}} |->
+                            [a \in (DOMAIN Ents(i, r)[x].attrs) \cap Derived |-> Ents(i, r)[x].attrs[a]]]
 SesOf(i, r)  == [x \in DOMAIN Ents(i, r) |-> Ents(i, r)[x].ses]
+\* attribute disagreement on an entry that is in the conflict state on both replicas, by flavour
+CnfFlavour(a, b) ==
+  IF a.attrs = b.attrs THEN "none"
+  ELSE IF Without(a.attrs, Derived) = Without(b.attrs, Derived) THEN "conflict-entry-stale-memberof"
+  ELSE IF Without(a.attrs, Derived \cup {"source_uuid"}) = Without(b.attrs, Derived \cup {"source_uuid"}) THEN "conflict-entry-source-uuid-set"
+  ELSE IF SubFun(Without(a.attrs, Derived), Without(b.attrs, Derived)) \/ SubFun(Without(b.attrs, Derived), Without(a.attrs, Derived))
+       THEN "conflict-entry-partial-attrs"
+  ELSE "conflict-entry-attrs-diverged"
+CnfFlavours(i) == {CnfFlavour(Ents(i, r1)[x], Ents(i, r2)[x]) :
+                     <<r1, r2, x>> \in {t \in Reps(i) \X Reps(i) \X (UNION {DOMAIN Ents(i, r) : r \in Reps(i)}) :
+                        /\ t[3] \in DOMAIN Ents(i, t[1]) /\ t[3] \in DOMAIN Ents(i, t[2])
+                        /\ Ents(i, t[1])[t[3]].live = "conflict" /\ Ents(i, t[2])[t[3]].live = "conflict"}} \ {"none"}
 
 IsInit(i)    == Rec[i].op = "init"
 OkRes(i)     == Rec[i].res = "ok"
@@ -67,7 +86,7 @@ UniqueLive(i) == \A r \in Reps(i) : UniqueOn(i, r)
 IsQuiescentMesh(i) == Rec[i].op = "mesh" /\ Rec[i].res.q
 ConvergedCore(i)    == \A r1, r2 \in Reps(i) : EntsCore(i, r1) = EntsCore(i, r2)
 ConvergedSes(i)     == \A r1, r2 \in Reps(i) : SesOf(i, r1) = SesOf(i, r2)
-ConvergedDerived(i) == \A r1, r2 \in Reps(i) : EntsDerived(i, r1) = EntsDerived(i, r2)
+ConvergedDerived(i) == \A r1, r2 \in Reps(i) : RecycledDerived(i, r1) = RecycledDerived(i, r2)
 Q(i, P) == IsQuiescentMesh(i) => P
 
 \* classification of a session-only divergence: one replica's session map is pointwise at least as
@@ -111,8 +130,10 @@ Spec == Init /\ [][Next]_vars
 
 Judge == l <= Len(Rec) =>
   /\ (Q(l, ConvergedCore(l))    \/ PrintT(<<"L1FAIL", "C08", l, IF Skew2 THEN "state-diverged-under-clock-skew" ELSE "state-diverged">>))
+  /\ \A f \in {"conflict-entry-stale-memberof", "conflict-entry-source-uuid-set", "conflict-entry-partial-attrs", "conflict-entry-attrs-diverged"} :
+        (Q(l, f \notin CnfFlavours(l)) \/ PrintT(<<"L1FAIL", "C08", l, f>>))
   /\ (Q(l, ConvergedSes(l))     \/ PrintT(<<"L1FAIL", "C08", l, SesSig(l)>>))
-  /\ (Q(l, ConvergedDerived(l)) \/ PrintT(<<"L1FAIL", "C08", l, "nonlive-entry-stale-memberof">>))
+  /\ (Q(l, ConvergedDerived(l)) \/ PrintT(<<"L1FAIL", "C08", l, "recycled-entry-stale-memberof">>))
   /\ (NoResurrectionStep(l) \/ PrintT(<<"L1FAIL", "C09", l, "resurrected">>))
   /\ (RefusalInert(l)       \/ PrintT(<<"L1FAIL", "C09", l, "refusal-changed-consumer">>))
   /\ (RangeDecision(l)      \/ PrintT(<<"L1FAIL", "C09", l, "range-decision">>))
